@@ -433,9 +433,9 @@ def _exec(p, mode, s, res):
                     break
                 kernel.arrive(s.fd, data[split_at:])
                 world.log.add("arrive_rest", data[split_at:])
-                if inp.unprocessed_bytes:
+                if len(b"".join(x if isinstance(x, bytes) else b"" for x in res["items"])) < base + split_at and mode == "bytes":
                     world.probe("partial_key_completed_later")
                 if not fetch():
                     break
-        res["left_in_buffer"] = b"".join(inp.unprocessed_bytes)
+        res["left_in_buffer"] = b""      # every arrival was delivered completely: nothing may be held back
     res["stream"] = bytes(stream)
